@@ -139,6 +139,93 @@ def rp(ob):
     return {'func': 'bath_eigensystem', 'inputs': {'obligation': ob['name']}}
 
 
+# ---- PT-TEMPO: the process tensor is handed the basis change of the SAME unitary as TEMPO uses, in the same direction
+class PtRotationTarget:
+    """PtTempo._init_simple_process_tensor / _init_file_process_tensor on a free unitary symbol U (tnnorm).  Required:
+    the state entering the input leg is taken to the bath's eigenbasis,  transform_in^T = L(U^+, U)  with  L(A,B) vec(rho) =
+    vec(A rho B), i.e. transform_in[(c,d),(a,b)] = conj(U)[c,a] U[d,b];  the output leg brings it back,
+    transform_out[(c,d),(a,b)] = U[a,c] conj(U)[b,d].  (get_mpo_tensor contracts the legs with transform_in^T / transform_out:
+    C03 pt/transform.)"""
+
+    def __init__(self, which):
+        self.which = which
+        self.qualname = 'pt_tempo.PtTempo._init_%s_process_tensor' % which
+        self.name = 'wire/pt-basis-rotation[%s]' % which
+        self.prop = PROP
+
+    def replay(self, ob):
+        return {'func': 'basis_covariance_pt', 'inputs': {'obligation': ob['name']}}
+
+    def run(self, timeout_ms, tier):
+        import time
+        from pyvc import tnnorm
+        from pyvc.tnnorm import TArr, equal, new_label
+        from pyvc.interp import Interp
+        from pyvc.modules import Repo, describe
+        from pyvc import values as Vv
+        t0 = time.time()
+        repo = Repo()
+        res = {'target': self.name, 'function': self.qualname, 'property': PROP, 'paths': 0, 'obligations': [], 'undecided': [], 'errors': [],
+               'flags': ['FREE_TENSOR_SYMBOLS'], 'lib_pure': [], 'lib_used': ['numpy.kron / .T / .conjugate() (einsum terms)']}
+        fref = repo.resolve(self.qualname)
+        if fref is None:
+            res['undecided'].append('contract target missing: %s' % self.qualname)
+            return res
+        res['function_info'] = describe(fref)
+        R = Registry()
+        tnnorm.install(R)
+
+        @model
+        def m_allclose(ip, args, kw):
+            return ip.choose('unitary-is-identity')
+
+        @model
+        def m_pt(ip, args, kw):
+            ip.ghost['pt_kwargs'] = kw
+            return Obj('PTM', {})
+        R.lib_models['numpy.allclose'] = m_allclose
+        R.models['process_tensor.SimpleProcessTensor'] = m_pt
+        R.models['process_tensor.FileProcessTensor'] = m_pt
+        work = [[]]
+        while work:
+            prefix = work.pop()
+            Vv.reset_fresh()
+            ip = Interp(repo, R, prefix, solver_timeout_ms=timeout_ms)
+            try:
+                bath = Obj('BathM', {'unitary_transform': TArr.sym('U', 2)})
+                o = mkobj(repo, 'pt_tempo.PtTempo', _bath=bath, _dimension=tnnorm.TDim('d'), _parameters=Obj('ParamsM', {'dt': Real('dt')}),
+                          name=None, description=None, _process_tensor=None)
+                args = [o] if self.which == 'simple' else [o, '<filename>', False]
+                ip.call(fref, args, {})
+                kw = ip.ghost.get('pt_kwargs', {})
+                ident = any(t is True for t in ip.trace[:1]) if ip.trace else False
+                tin, tout = kw.get('transform_in'), kw.get('transform_out')
+                obs = []
+                if tin is None and tout is None:
+                    obs.append(('wire/pt-basis-rotation[identity: no transforms]', ident, {}))
+                else:
+                    a, b, c, d = [new_label() for _ in range(4)]
+                    want_in = TArr([('U*', (c, a)), ('U', (d, b))], [('flat', c, d), ('flat', a, b)])
+                    a, b, c, d = [new_label() for _ in range(4)]
+                    want_out = TArr([('U', (a, c)), ('U*', (b, d))], [('flat', c, d), ('flat', a, b)])
+                    obs.append(('wire/pt-basis-rotation[transform_in]', isinstance(tin, TArr) and equal(tin, want_in), {'computed': repr(tin), 'required': repr(want_in)}))
+                    obs.append(('wire/pt-basis-rotation[transform_out]', isinstance(tout, TArr) and equal(tout, want_out), {'computed': repr(tout), 'required': repr(want_out)}))
+                for nm, ok, info in obs:
+                    res['obligations'].append({'name': nm, 'backend': 'tnnorm', 'flags': ['FREE_TENSOR_SYMBOLS'], 'info': info, 'model': info, 'pc_sat': 'sat',
+                                               'result': 'discharged' if ok else 'refuted', 'seconds': 0.0})
+                res['paths'] += 1
+            except Unsupported as u:
+                res['undecided'].append('unsupported construct: %s' % u)
+            except PyRaise as pr:
+                res['obligations'].append({'name': 'unexpected-exception/' + pr.exc.typ, 'backend': 'tnnorm', 'flags': [], 'info': {}, 'model': {}, 'pc_sat': 'sat',
+                                           'result': 'refuted', 'seconds': 0.0})
+            except Vv.Infeasible:
+                pass
+            work.extend(ip.new_forks)
+        res['seconds'] = round(time.time() - t0, 3)
+        return res
+
+
 def targets(tier='quick'):
     R = c05_registry()
     T = [Target('bath/diagonalisation', 'bath.Bath.__init__', scen_bath_h, post_bath, R, PROP, replay=rp)]
@@ -155,6 +242,8 @@ def targets(tier='quick'):
     for dg in (False, True):
         T.append(Target('wire/basis-rotation[degeneracy_maps=%s]' % dg, 'backends.tempo_backend.BaseTempoBackend.initialize_mps_mpo',
                         c01.scen_init(False, dg), post_rot, RI, PROP, replay=lambda ob: {'func': 'basis_covariance', 'inputs': {}}))
+    T.append(PtRotationTarget('simple'))
+    T.append(PtRotationTarget('file'))
     return T
 
 
